@@ -17,10 +17,9 @@ import (
 	"unicode"
 
 	"github.com/emersion/go-message/textproto"
-	modconfig "github.com/foxcpp/maddy/framework/config/module"
+	"github.com/foxcpp/maddy/framework/config"
 	"github.com/foxcpp/maddy/framework/log"
 	"github.com/foxcpp/maddy/framework/module"
-	"github.com/foxcpp/maddy/internal/authz"
 	"github.com/foxcpp/maddy/internal/table"
 	"golang.org/x/net/idna"
 	"golang.org/x/text/unicode/norm"
@@ -325,15 +324,21 @@ func (sc c15Scenario) header() string {
 // ---- execution ----------------------------------------------------------------------
 
 func c15Run(sc c15Scenario) (vs []ev.V) {
-	c := &Check{
-		instName: "verif", log: log.Logger{Out: log.NopOutput{}},
-		checkHeader:   sc.CheckHeader,
-		unauthAction:  modconfig.FailAction{Reject: true},
-		noMatchAction: modconfig.FailAction{Reject: true},
-		errAction:     modconfig.FailAction{Reject: true},
-		fromNorm:      authz.NormalizeFuncs[sc.FromNorm],
-		authNorm:      authz.NormalizeFuncs[sc.AuthNorm],
+	// built through the real New + Init from a configuration block (documented defaults for the three actions:
+	// reject); only the two tables are put in place afterwards
+	mod, err := New("check.authorize_sender", "verif", nil, nil)
+	if err != nil {
+		return []ev.V{ev.Vf("harness:new", "%v", err)}
 	}
+	c := mod.(*Check)
+	if err := c.Init(config.NewMap(nil, config.Node{Children: []config.Node{
+		{Name: "check_header", Args: []string{map[bool]string{true: "yes", false: "no"}[sc.CheckHeader]}},
+		{Name: "from_normalize", Args: []string{sc.FromNorm}},
+		{Name: "auth_normalize", Args: []string{sc.AuthNorm}},
+	}})); err != nil {
+		return []ev.V{ev.Vf("harness:init", "%v", err)}
+	}
+	c.log = log.Logger{Out: log.NopOutput{}}
 	switch sc.UserToEmail {
 	case 0:
 		c.userToEmail = &table.Identity{}
